@@ -240,6 +240,27 @@ func checkJSONToDSL1(run *core.Run, m *openfgav1.AuthorizationModel, how string)
 		run.Violation("round-trip-loses-information", c, "normal form of the input:\n"+modelJSON(want), "DSL:\n"+dsl+"\nparsed back:\n"+modelJSON(got))
 		return
 	}
+	// asking for source information only adds comments: that rendering parses too, and to the same model
+	if modular {
+		dslSrc, serr := transformer.TransformJSONProtoToDSL(m, transformer.WithIncludeSourceInformation(true))
+		run.Eval(1)
+		run.Count("renderings_with_source_information_parsed_back", 1)
+		if serr != nil {
+			run.Violation("expressible-model-rejected", c, "DSL with source information", serr.Error())
+			return
+		}
+		if !attributionHasLineBreak(m) {
+			backS, perr := transformer.TransformDSLToProto(dslSrc)
+			if perr != nil {
+				run.Violation("produced-dsl-does-not-parse", c, "the DSL produced with source information parses", dslSrc+"\n"+perr.Error())
+				return
+			}
+			if gotS := sortedTypes(normalModel(backS)); !proto.Equal(got, gotS) {
+				run.Violation("round-trip-loses-information", c, "the rendering with source information parses to the same model:\n"+modelJSON(got), "DSL:\n"+dslSrc+"\nparsed back:\n"+modelJSON(gotS))
+				return
+			}
+		}
+	}
 	// the re-parsed rewrite must itself be in normal form (nothing else was rearranged)
 	for _, td := range back.GetTypeDefinitions() {
 		for rn, us := range td.GetRelations() {
@@ -329,9 +350,14 @@ func c02Userset(r *rand.Rand, depth int) *openfgav1.Userset {
 	name := func() string { return c02Names[r.Intn(len(c02Names))] }
 	kids := func() []*openfgav1.Userset {
 		n := 1 + r.Intn(3)
+		d := depth + 1
+		if depth <= 1 && r.Intn(40) == 0 {
+			// a wide operator: beyond the small-slice thresholds of the sort routines (12); leaves mostly
+			n, d = 13+r.Intn(8), depth+3
+		}
 		var ch []*openfgav1.Userset
 		for i := 0; i < n; i++ {
-			ch = append(ch, c02Userset(r, depth+1))
+			ch = append(ch, c02Userset(r, d))
 		}
 		return ch
 	}
